@@ -402,8 +402,9 @@ def r8_op_id_maps(ctx):
     model = Obj('x:ModelT', {'subgraphs': [Obj('x:SubGraphT', {'operators': [f'op{k}' for k in range(s)]}) for s in sizes]})
     outs = it.outcomes(c, [selfo, model], copy_args=False)
     om, am = selfo.fields['_original_op_id_map'], selfo.fields['_added_op_id_map']
+    # (the added-op lists may be shared: only the entry appended last is ever read back - see the twin C01.twin_shared_added_lists)
     ok = len(outs) == 1 and outs[0].kind == 'return' and om == [list(range(s)) for s in sizes] and am == [[] for _ in sizes] \
-        and len({id(x) for x in am}) == len(am) and len({id(x) for x in om}) == len(om)
+        and len({id(x) for x in om}) == len(om)
     ctx.check(R, ok, c.node, c, f'subgraphs with {sizes} operators -> original={om!r} added={am!r}',
               'every subgraph needs its own identity map of len(operators) and its own (unshared) empty added-op list')
   t = ctx.repo.func(f'{PERF}.transform_graph')
@@ -445,6 +446,7 @@ def run(ctx):
   r10_grouping_table(ctx)
   shared.rule_performer_translation(ctx, 'C01.R12')
   shared.rule_performer_simulation(ctx, 'C01.R14')
+  shared.rule_graph_rewrite_simulation(ctx, 'C01.R15')
   from sa.rules import c19  # pylint: disable=g-import-not-at-top
   ctx.rule('C01.R13', 'graph info: every tensor records its own id, its producer and one consumer entry per consuming operator', floor=1)
   gi = ctx.repo.func(f'{c19.TIG}._tensor_info_generator')
